@@ -908,7 +908,8 @@ def ef_member(trees, sel="mul", wraps=None, blinded=False, outrot=True):
     # in the column) would hide a wrong sign of `o` in the prover's numerator
     shape = {"adv": adv, "unbl": [] if blinded else list(range(EF_NADV)), "nfix": nfix, "ninst": ninst,
              "chal": [0] if chal else [], "gates": [{"sel": sel, "cons": cons}], "eq": [], "copies": []}
-    return dict(shape=shape, k=k, np=1, nbc=0, lens=[3] * ninst or [0])
+    # instance rows 0..2 (k=4) / 0..1 (k=3, no rotation +1) are queried on the enabled row 1 and must be supplied
+    return dict(shape=shape, k=k, np=1, nbc=0, lens=[3 if k == 4 else 2] * ninst or [0])
 
 
 def ef_sig(members, procs=4):
